@@ -77,6 +77,13 @@ func main() {
 		return
 	}
 
+	// bring the data files up to date with the logs first: an earlier run
+	// (or the console) may have ended with changes that are in the log only
+	if err := storage.InitStorage(); err != nil {
+		fmt.Println(err.Error())
+		os.Exit(1)
+	}
+
 	rm, err := storage.OpenRelation(*cfgDb, !*cfgDisableFsync)
 	if err != nil {
 		fmt.Println(err.Error())
@@ -87,6 +94,7 @@ func main() {
 	cfg, err := makeConfig(rm)
 	if err != nil {
 		fmt.Println(err.Error())
+		rm.Close()
 		os.Exit(1)
 	}
 	fmt.Printf("Import config: %+v\n", cfg)
@@ -117,6 +125,12 @@ func main() {
 		if chOk == nil && chErr == nil {
 			break
 		}
+	}
+
+	// write the imported rows to the data file and stop the flusher
+	if err := rm.Close(); err != nil {
+		fmt.Println(err.Error())
+		os.Exit(1)
 	}
 }
 
